@@ -1,4 +1,5 @@
 import BlochVerif.Eval.OpsLog
+import BlochVerif.Generated.QasmLines
 import BlochVerif.Sim.Qasm
 import BlochVerif.Sim.Replay
 /-!
@@ -174,5 +175,27 @@ theorem a_program_only_appends_to_the_emitted_operations (fuel : Nat) (fn : Pars
     (st st' : Eval.EState) (v : Eval.Value) (h : (Eval.call fuel fn args).run st = .ok (v, st')) :
     (∃ suf, st'.sim.ops = st.sim.ops ++ suf) ∧ st'.sim.logOps = st.sim.logOps :=
   Eval.call_only_extends_the_log fuel fn args st st' v h
+
+end BlochVerif.Props.C05
+
+/-! ## the text the model prints is the text the source prints (translator output, regenerated on every run) -/
+namespace BlochVerif.Props.C05
+open BlochVerif BlochVerif.Sim
+
+/-- `Generated/QasmLines.lean` is rewritten on every run from the `m_ops.emplace_back(...)` of each simulator
+operation and from `getQasm`; the line the model renders for an operation is that concatenation, piece for piece -/
+theorem rendered_line_is_the_source_line {R : Type} (fmt : R → String) (op : QOp R) :
+    (QOp.toText fmt op).render = Generated.logLineSrc fmt op := by
+  cases op <;> rfl
+
+/-- … and the whole text is the source's preamble followed by the logged lines in order -/
+theorem qasm_text_is_the_source_concatenation {K R : Type} (fmt : R → String) (st : State K R) :
+    getQasm fmt st = Generated.preambleSrc st.n ++ String.join (st.ops.map (Generated.logLineSrc fmt)) := by
+  unfold getQasm renderProgram Generated.preambleSrc header
+  have : (st.ops.map (QOp.toText fmt)).map TOp.render = st.ops.map (Generated.logLineSrc fmt) := by
+    rw [List.map_map]
+    exact List.map_congr_left (fun op _ => rendered_line_is_the_source_line fmt op)
+  rw [this]
+  simp only [String.append_assoc]
 
 end BlochVerif.Props.C05
